@@ -35,6 +35,8 @@ type channel struct {
 	closed      bool
 	slot        *sendRec // unbuffered rendezvous
 	recvWaiters int
+	nextTicket  int // blocked senders are served in arrival order, as in the Go runtime
+	serving     int
 }
 
 func newChannel(p *pathState, c int) *channel {
@@ -99,8 +101,14 @@ func spawn(fr *frame, pos token.Pos, fn value, args []value) {
 		g.what = f.Fn.String()
 	}
 	p.gs = append(p.gs, g)
-	if len(p.gs) > 64 {
-		panic(pathEnd{StBound, "more than 64 goroutines"})
+	live := 0
+	for _, o := range p.gs {
+		if !o.done {
+			live++
+		}
+	}
+	if live > 64 || len(p.gs) > 20000 {
+		panic(pathEnd{StBound, "more than 64 live goroutines: " + p.deadlockInfo()})
 	}
 }
 
@@ -287,7 +295,10 @@ func chanSend(fr *frame, c *channel, v value) {
 	if c == nil {
 		blockOn(fr, func() bool { return false })
 	}
-	blockOn(fr, c.canSend)
+	ticket := c.nextTicket
+	c.nextTicket++
+	blockOn(fr, func() bool { return c.serving == ticket && c.canSend() })
+	c.serving++
 	if c.closed {
 		panic(rtPanic("send on closed channel"))
 	}
